@@ -149,12 +149,63 @@ def run(ck):
                         break
     except Exception as e:
         ck.violation("run-error", "%s: %s" % (type(e).__name__, str(e)[:200]), dict(kind="slow-last-step"))
+    # ---- fixed closed models: a population of 60 million (every count must stay exact), and a compartment with a declared
+    #      ceiling (a transition into a full compartment is refused whole — never applied in part)
+    for name, (mk, x0f, T) in FIXED.items():
+        for exact in (True, False):
+            for gridded in (False, True):
+                inp = dict(kind="fixed-closed", name=name, exact=exact, gridded=gridded)
+                ck.case(inp, nontrivial=True)
+                bad = fixed_closed(mk, x0f, T, exact, gridded)
+                if bad:
+                    ck.violation("stochastic-total-changes" + ("-on-grid" if gridded else ""), "%s model, exact=%s: %s" % (name, exact, bad), inp)
     ck.notes["max_relative_total_drift_deterministic"] = worst
     ck.assumptions += ["deterministic conservation is judged at 1e-6 relative (odeint tolerance 1.5e-8); stochastic totals exactly"]
 
 
+def _sixty_million():
+    import pg
+    return pg.model(state=["S", "I", "R"], param=["b", "g"],
+                    event=[pg.Event(rate="b*S*I/(S+I+R)", transition_list=[pg.Transition(origin="S", destination="I", transition_type="T")]),
+                           pg.Event(rate="g*I", transition_list=[pg.Transition(origin="I", destination="R", transition_type="T")])])
+
+
+def _ceiling():
+    import pg
+    return pg.model(state=[("W", (0, None)), ("H", (0, 12)), ("R", (0, None))], param=["b", "g"],
+                    event=[pg.Event(rate="b*W", transition_list=[pg.Transition(origin="W", destination="H", transition_type="T", magnitude="3")]),
+                           pg.Event(rate="g*H", transition_list=[pg.Transition(origin="H", destination="R", transition_type="T")])])
+
+
+FIXED = {"sixty-million": (_sixty_million, [59999000.0, 1000.0, 0.0], 0.02), "ceiling": (_ceiling, [200.0, 10.0, 20.0], 3.0)}
+
+
+def fixed_closed(mk, x0, T, exact, gridded):
+    import pg
+    m = mk()
+    m.parameters = {"b": 1.5, "g": 0.5}
+    m.initial_values = (list(x0), np.float64(0))
+    np.random.seed(77)
+    try:
+        with pg.quiet():
+            out = m.solve_stochast(np.linspace(0.0, T, 6) if gridded else T, 2, exact=exact, full_output=True)
+    except Exception as e:      # noqa: BLE001
+        return "solve_stochast raised %s: %s" % (type(e).__name__, str(e)[:150])
+    for r, path in enumerate(out[0]):
+        tots = np.asarray(path).astype(np.float64).sum(axis=1)
+        if not np.all(np.abs(tots - sum(x0)) <= 1e-9 * (1 + sum(x0))):
+            return "run %d: row totals %s (start %r)" % (r, sorted(set(np.round(tots, 6).tolist()))[:5], sum(x0))
+        if np.asarray(path).dtype != np.float64 and np.asarray(path).dtype.kind == "f":
+            return "run %d: the recorded states are %s numbers (counts above 2**24 are not exact in them)" % (r, np.asarray(path).dtype)
+    return None
+
+
 def replay(ck, data):
     inp = data["input"]
+    if inp.get("kind") == "fixed-closed":
+        import pg
+        mk, x0, T = FIXED[inp["name"]]
+        return fixed_closed(mk, x0, T, inp["exact"], inp["gridded"])
     if inp.get("kind") == "slow-last-step":
         import pg
         mc = pg.model(state=["A", "B", "C"], param=["r1", "r2"],
